@@ -8,6 +8,7 @@ package tracer
 import (
 	"encoding/json"
 	"fmt"
+	"io"
 	"os"
 	"runtime/debug"
 	"sort"
@@ -28,6 +29,9 @@ type c15AttrCase struct {
 	Part      c15Part  `json:"part"`
 	Fin       int      `json:"fin"`
 	TimeoutAt int      `json:"timeout_at"` // >=0: a Read returning (0, timeout) is inserted before this step; -1 none
+	// with TimeoutAt >= 0: nothing is inserted; the call at that step, a Read, returns its bytes TOGETHER WITH the timeout error
+	TimeoutData bool   `json:"timeout_data,omitempty"`
+	Tab         c15Tab `json:"tab"` // HPACK dynamic-table-size history of each direction
 }
 
 func c15QuickShapes() []c15Shape {
@@ -269,7 +273,59 @@ func c15ThoroughShapes() []c15Shape {
 	return out
 }
 
-type c15Pair struct{ A, B c15Shape }
+type c15Pair struct {
+	A, B c15Shape
+	Tab  c15Tab
+}
+
+// c15TabPairs: the HPACK table-size histories (c15TableScheds) crossed with call shapes: two plain
+// calls (2 request blocks, 4 response blocks) with every schedule in the request direction only and in
+// the response direction only (thorough: also in both, and two different ones); with the same schedule
+// in both directions: every block HEADERS + CONTINUATION next to a trailers-only call, REFUSED_STREAM +
+// retry (3 request blocks), late response blocks for a stream that is gone (the update may travel in a
+// block that belongs to no traced stream), a nameless call next to blocks of 3-4 fragments (the update
+// instruction may be continued in a CONTINUATION frame).
+func c15TabPairs(thorough bool) []c15Pair {
+	plain := c15Shape{Named: true, NReq: 1, NResp: 1}
+	var scheds []string
+	for _, sc := range c15TableScheds(thorough) {
+		scheds = append(scheds, sc.Name)
+	}
+	var out []c15Pair
+	for _, sc := range scheds {
+		out = append(out, c15Pair{A: plain, B: plain, Tab: c15Tab{Req: sc}}, c15Pair{A: plain, B: plain, Tab: c15Tab{Resp: sc}})
+	}
+	others := []c15Pair{
+		{A: c15Shape{Named: true, Cont: true, NReq: 1, NResp: 1, RespHdrCont: 1, RespCont: true}, B: c15Shape{Named: true, NReq: 0, Resp: 1}},
+		{A: c15Shape{Named: true, NReq: 1, NResp: 1, Variant: "refused-retry"}, B: plain},
+		{A: c15Shape{Named: true, NReq: 1, Variant: "rstc-late-hdr"}, B: plain},
+		{A: c15Shape{Named: false, NReq: 1, NResp: 1}, B: c15Shape{Named: true, Cont: true, ContN: 2, NReq: 1, NResp: 0, RespHdrCont: 2, RespCont: true, RespContN: 3}},
+	}
+	if thorough {
+		others = append(others,
+			c15Pair{A: plain, B: c15Shape{Named: true, NReq: 1, Variant: "goaway-late"}},
+			c15Pair{A: c15Shape{Named: true, NReq: 1, NResp: 1, Variant: "rsts-mid"}, B: c15Shape{Named: true, NReq: 1, NResp: 1, Bidi: true}},
+			c15Pair{A: c15Shape{Named: true, NReq: 1, NResp: 1, Variant: "rstc-late-trail"}, B: c15Shape{Named: true, NReq: 1, NResp: 0, RespCont: true}},
+		)
+	}
+	quick := map[string]bool{"grow64k@1": true, "zero@1-grow64k@2": true, "small@1": true, "late-settings-grow64k@1": true}
+	for _, sc := range scheds {
+		if !thorough && !quick[sc] {
+			continue
+		}
+		for _, o := range others {
+			out = append(out, c15Pair{A: o.A, B: o.B, Tab: c15Tab{Req: sc, Resp: sc}})
+		}
+	}
+	if thorough {
+		for i, sc := range scheds {
+			out = append(out,
+				c15Pair{A: plain, B: plain, Tab: c15Tab{Req: sc, Resp: sc}},
+				c15Pair{A: plain, B: plain, Tab: c15Tab{Req: sc, Resp: scheds[(i+3)%len(scheds)]}})
+		}
+	}
+	return out
+}
 
 // c15Pairs lists the shape pairs family by family (basic x basic, late frames,
 // message pieces, CONTINUATION chains, thorough shapes) and then merges the families
@@ -284,17 +340,18 @@ func c15Pairs(thorough bool) []c15Pair {
 		pairs = nil
 	}
 	seen := map[string]bool{}
-	add := func(a, b c15Shape) {
+	addTab := func(a, b c15Shape, tab c15Tab) {
 		if a.Variant == "goaway" || a.Variant == "goaway-late" { // GOAWAY(last-stream-id 1) is part of the script of stream 3
 			return
 		}
-		key := a.String() + "|" + b.String()
+		key := a.String() + "|" + b.String() + "|" + tab.String()
 		if seen[key] {
 			return
 		}
 		seen[key] = true
-		pairs = append(pairs, c15Pair{a, b})
+		pairs = append(pairs, c15Pair{A: a, B: b, Tab: tab})
 	}
+	add := func(a, b c15Shape) { addTab(a, b, c15Tab{}) }
 	for _, a := range q {
 		for _, b := range q {
 			add(a, b)
@@ -357,6 +414,11 @@ func c15Pairs(thorough bool) []c15Pair {
 		}
 	}
 	endFamily()
+	// HPACK dynamic-table-size histories
+	for _, p := range c15TabPairs(thorough) {
+		addTab(p.A, p.B, p.Tab)
+	}
+	endFamily()
 	if thorough {
 		t := c15ThoroughShapes()
 		for _, x := range t {
@@ -396,10 +458,17 @@ type c15Built struct {
 	contReq, contR   bool
 	chainReq, chainR bool // a header block of >= 3 fragments in that direction
 	late             bool // response-direction frames arrive for a stream that is gone already
+	tab              c15Tab
+}
+
+// encode: the frames of the two calls merged in the given order behind the connection prologue, the
+// SETTINGS of the table-size schedules added, HPACK encoded in emission order.
+func (bt *c15Built) encode(order []byte) ([]c15Unit, c15TabStats) {
+	return c15EncodeTab(c15ApplyTab(c15Merge(bt.a, bt.b, order), bt.tab), bt.tab)
 }
 
 func c15Build(p c15Pair) *c15Built {
-	bt := &c15Built{shapes: []c15Shape{p.A, p.B}}
+	bt := &c15Built{shapes: []c15Shape{p.A, p.B}, tab: p.Tab}
 	var wa, wb c15Want
 	bt.a, wa = c15CallItems(p.A, 0)
 	bt.b, wb = c15CallItems(p.B, 1)
@@ -434,7 +503,7 @@ func c15OrderInts(order []byte) []int {
 
 // c15AttrVerdicts: root cause first — an opaque wrapper, a panic, a frame
 // tracer that gave up on well-formed traffic; only then the traces.
-func c15AttrVerdicts(res *c15Result, bt *c15Built) []c15Verdict {
+func c15AttrVerdicts(res *c15Result, bt *c15Built, st c15TabStats) []c15Verdict {
 	var out []c15Verdict
 	if res.Opaque != "" {
 		out = append(out, c15Verdict{"not-transparent", res.Opaque})
@@ -443,6 +512,11 @@ func c15AttrVerdicts(res *c15Result, bt *c15Built) []c15Verdict {
 		return append(out, c15Verdict{"panic:" + res.Panic, "panic on well-formed traffic: " + res.PanicVal})
 	}
 	if res.BrokenReq || res.BrokenResp {
+		if (res.BrokenReq && st.Updates[c15DirReq] > 0) || (res.BrokenResp && st.Updates[c15DirResp] > 0) {
+			return append(out, c15Verdict{"gave-up-after-table-size-update", fmt.Sprintf(
+				"the frame tracer gave up (request direction=%v, response direction=%v) on well-formed traffic in which header blocks start with HPACK dynamic-table-size updates (RFC 7541 section 6.3; blocks with an update: request direction %d, of them to more than 4096 bytes %d; response direction %d, of them to more than 4096 bytes %d; every size is within what the receiver's SETTINGS_HEADER_TABLE_SIZE allows); table-size history %s; %d trace(s) delivered",
+				res.BrokenReq, res.BrokenResp, st.Updates[0], st.UpdatesAbove[0], st.Updates[1], st.UpdatesAbove[1], bt.tab, len(res.Traces))})
+		}
 		if res.BrokenResp && !res.BrokenReq && bt.late {
 			return append(out, c15Verdict{"gave-up-after-late-frames", fmt.Sprintf(
 				"the frame tracer of the response direction gave up on well-formed traffic in which response HEADERS / DATA / trailers arrive for a stream that was already reset by the client or dropped by GOAWAY (frames that were in flight; their header blocks still update the HPACK dynamic table every later block of the direction refers to); %d trace(s) delivered",
@@ -464,13 +538,74 @@ func c15AttrVerdicts(res *c15Result, bt *c15Built) []c15Verdict {
 	return append(out, c15Judge(res, bt.wants, bt.shapes)...)
 }
 
-func c15RunAttrUnits(cs *c15AttrCase, bt *c15Built, units []c15Unit) (c15Result, []c15Verdict) {
-	steps := c15Steps(units, cs.Part)
-	if cs.TimeoutAt >= 0 {
-		rd := c15DirResp
-		if cs.Server {
-			rd = c15DirReq
+// c15CachedSteps: the whole / frame / byte partitions of the script that was asked for last are kept
+// (many cases of one interleaving share them; callers do not modify the slice).
+var c15StepCache struct {
+	first *c15Unit
+	n     int
+	steps map[string][]c15Step
+}
+
+func c15CachedSteps(units []c15Unit, part c15Part) []c15Step {
+	if part.Mode == "cut" || len(units) == 0 {
+		return c15Steps(units, part)
+	}
+	if c15StepCache.first != &units[0] || c15StepCache.n != len(units) {
+		c15StepCache.first, c15StepCache.n, c15StepCache.steps = &units[0], len(units), map[string][]c15Step{}
+	}
+	st, ok := c15StepCache.steps[part.Mode]
+	if !ok {
+		st = c15Steps(units, part)
+		c15StepCache.steps[part.Mode] = st
+	}
+	return st
+}
+
+// c15CutStep: index of the call that ends at offset pos of direction dir, -1 if none does.
+func c15CutStep(steps []c15Step, dir, pos int) int {
+	off := 0
+	for i, st := range steps {
+		if st.Dir != dir {
+			continue
 		}
+		off += len(st.Data)
+		if off == pos {
+			return i
+		}
+		if off > pos {
+			break
+		}
+	}
+	return -1
+}
+
+// c15RunAttrUnits runs one case.  ok = false: the case does not exist (its ending mode needs the
+// script's last call to be a Read of this side / its timeout needs that call to be a Read with bytes).
+func c15RunAttrUnits(cs *c15AttrCase, bt *c15Built, units []c15Unit, st c15TabStats) (res c15Result, vs []c15Verdict, ok bool) {
+	steps := c15CachedSteps(units, cs.Part)
+	rd := c15DirResp
+	if cs.Server {
+		rd = c15DirReq
+	}
+	if cs.Fin == c15FinEOFData || cs.Fin == c15FinErrData {
+		last := len(steps) - 1
+		if last < 0 || steps[last].Dir != rd || len(steps[last].Data) == 0 {
+			return res, nil, false
+		}
+		steps = append([]c15Step(nil), steps...)
+		steps[last].Err = io.EOF
+		if cs.Fin == c15FinErrData {
+			steps[last].Err = c15ErrOther
+		}
+	}
+	if cs.TimeoutAt >= 0 && cs.TimeoutData {
+		at := cs.TimeoutAt
+		if at >= len(steps) || steps[at].Dir != rd || len(steps[at].Data) == 0 || steps[at].Err != nil {
+			return res, nil, false
+		}
+		steps = append([]c15Step(nil), steps...)
+		steps[at].Err = c15ErrTimeout
+	} else if cs.TimeoutAt >= 0 {
 		at := cs.TimeoutAt
 		if at > len(steps) {
 			at = len(steps)
@@ -481,15 +616,43 @@ func c15RunAttrUnits(cs *c15AttrCase, bt *c15Built, units []c15Unit) (c15Result,
 		ns = append(ns, steps[at:]...)
 		steps = ns
 	}
-	res := c15Exec(cs.Server, steps, cs.Fin)
-	return res, c15AttrVerdicts(&res, bt)
+	res = c15Exec(cs.Server, steps, cs.Fin)
+	return res, c15AttrVerdicts(&res, bt, st), true
 }
 
 func c15RunAttrCase(cs *c15AttrCase) (c15Result, []c15Verdict, []c15Unit) {
-	bt := c15Build(c15Pair{cs.A, cs.B})
-	units := c15Encode(c15Merge(bt.a, bt.b, c15OrderBytes(cs.Order)))
-	res, v := c15RunAttrUnits(cs, bt, units)
+	bt := c15Build(c15Pair{A: cs.A, B: cs.B, Tab: cs.Tab})
+	units, st := bt.encode(c15OrderBytes(cs.Order))
+	res, v, _ := c15RunAttrUnits(cs, bt, units, st)
 	return res, v, units
+}
+
+// c15RefClean: the reference case exists and no verdict is raised for it.
+func c15RefClean(ref *c15AttrCase) bool {
+	bt := c15Build(c15Pair{A: ref.A, B: ref.B, Tab: ref.Tab})
+	units, st := bt.encode(c15OrderBytes(ref.Order))
+	_, vs, ok := c15RunAttrUnits(ref, bt, units, st)
+	return ok && len(vs) == 0
+}
+
+// c15ErrorWithData: the case delivers an error together with bytes in one Read.
+func (cs *c15AttrCase) errorWithData() bool {
+	return cs.Fin == c15FinEOFData || cs.Fin == c15FinErrData || (cs.TimeoutAt >= 0 && cs.TimeoutData)
+}
+
+// c15SeparateError: the same case with the error in a Read call of its own, after the bytes.
+func (cs *c15AttrCase) separateError() c15AttrCase {
+	ref := *cs
+	switch {
+	case cs.Fin == c15FinEOFData:
+		ref.Fin = c15FinEOF
+	case cs.Fin == c15FinErrData:
+		ref.Fin = c15FinErr
+	case cs.TimeoutAt >= 0 && cs.TimeoutData:
+		ref.TimeoutData = false
+		ref.TimeoutAt = cs.TimeoutAt + 1 // (0, timeout) inserted right after that call
+	}
+	return ref
 }
 
 func c15Keys(vs []c15Verdict) map[string]bool {
@@ -531,12 +694,28 @@ func (x *c15AttrRun) judge(cs *c15AttrCase, bt *c15Built, res *c15Result, vs []c
 	}
 	cp := *cs
 	cp.Order = append([]int(nil), cs.Order...)
+	// dependence on something is only claimed against a reference case (same scripts) that is
+	// entirely clean; the references for the error-with-bytes endings and for the table-size
+	// histories are run here, on demand
+	sepClean, tabClean := false, false
+	if cs.errorWithData() {
+		ref := cs.separateError()
+		sepClean = c15RefClean(&ref)
+	}
+	if !cs.Tab.none() {
+		ref := *cs
+		ref.Tab = c15Tab{}
+		tabClean = c15RefClean(&ref)
+	}
 	for _, v := range vs {
-		detail := fmt.Sprintf("%s [side=%s A=%s B=%s order=%v part=%+v fin=%d timeout_at=%d]", v.Detail, c15Side(cs.Server), cs.A, cs.B, cs.Order, cs.Part, cs.Fin, cs.TimeoutAt)
+		detail := fmt.Sprintf("%s [side=%s A=%s B=%s table-size-history=%s order=%v part=%+v ending=%s timeout_at=%d timeout_with_data=%v]", v.Detail, c15Side(cs.Server), cs.A, cs.B, cs.Tab, cs.Order, cs.Part, c15FinName(cs.Fin), cs.TimeoutAt, cs.TimeoutData)
 		r.Violate(v.Key, detail, cp)
-		// dependence on partition / interleaving is only claimed against a reference
-		// case (same scripts) that is entirely clean
+		if tabClean {
+			r.Violate("trace-depends-on-table-size-update", "same scripts, interleaving, partition and ending are traced correctly when no HPACK dynamic-table-size update is ever sent, but not with this table-size history (legal HPACK: sizes within the advertised SETTINGS_HEADER_TABLE_SIZE, announced at the start of a header block): "+v.Key+": "+detail, cp)
+		}
 		switch {
+		case sepClean:
+			r.Violate("trace-depends-on-error-with-data", "same scripts, interleaving and partition are traced correctly when the read error comes in a Read call of its own, but not when the underlying Read returns its last bytes together with the error (n > 0 and err != nil in one call, as io.Reader allows and crypto/tls does): "+v.Key+": "+detail, cp)
 		case wholeKeys != nil && len(wholeKeys) == 0 && cs.TimeoutAt >= 0:
 			r.Violate("trace-depends-on-read-timeout", "same scripts and interleaving are traced correctly without it, but not when one Read returns (0, timeout) between two frames: "+v.Key+": "+detail, cp)
 		case wholeKeys != nil && len(wholeKeys) == 0 && cs.Fin != c15FinClose:
@@ -571,62 +750,184 @@ func (x *c15AttrRun) pair(pi int, p c15Pair, thorough bool, mini bool) {
 	}
 	// baseline per side: first interleaving (A as early as allowed), whole runs
 	var baseKeys [2]map[string]bool
-	baseUnits := c15Encode(c15Merge(bt.a, bt.b, orders[0]))
+	baseUnits, baseSt := bt.encode(orders[0])
 	for s := 0; s < 2; s++ {
-		cs := c15AttrCase{Kind: "attr", Server: s == 1, A: p.A, B: p.B, Order: c15OrderInts(orders[0]), Part: c15Part{Mode: "whole"}, TimeoutAt: -1}
-		_, vs := c15RunAttrUnits(&cs, bt, baseUnits)
+		cs := c15AttrCase{Kind: "attr", Server: s == 1, A: p.A, B: p.B, Tab: p.Tab, Order: c15OrderInts(orders[0]), Part: c15Part{Mode: "whole"}, TimeoutAt: -1}
+		_, vs, _ := c15RunAttrUnits(&cs, bt, baseUnits, baseSt)
 		baseKeys[s] = c15Keys(vs)
 	}
 	canonical := map[int]bool{0: true, len(orders) / 2: true, len(orders) - 1: true}
+	// endRep[side][oi]: interleaving oi is the first one that ends with its particular run of frames in
+	// the side's read direction (the bytes an underlying Read can return together with the final error)
+	var endRep [2][]bool
+	for s := 0; s < 2; s++ {
+		rd := c15DirResp
+		if s == 1 {
+			rd = c15DirReq
+		}
+		endRep[s] = make([]bool, len(orders))
+		seen := map[string]bool{}
+		for oi, order := range orders {
+			i, j, n := len(bt.a), len(bt.b), len(order)
+			for n > 0 {
+				var it *c15Item
+				if order[n-1] == 0 {
+					it = &bt.a[i-1]
+				} else {
+					it = &bt.b[j-1]
+				}
+				if it.Dir != rd {
+					break
+				}
+				if order[n-1] == 0 {
+					i--
+				} else {
+					j--
+				}
+				n--
+			}
+			if sig := string(order[n:]); n < len(order) && !seen[sig] {
+				seen[sig] = true
+				endRep[s][oi] = true
+			}
+		}
+	}
 
 	for oi, order := range orders {
 		x.k++
 		if !x.r.Mine(x.k) {
 			continue
 		}
-		units := c15Encode(c15Merge(bt.a, bt.b, order))
+		units, st := bt.encode(order)
+		if !p.Tab.none() {
+			for d, name := range [2]string{"request", "response"} {
+				if st.Updates[d] > 0 {
+					x.r.Count("interleavings:table-size-update-in-"+name+"-direction", 1)
+				}
+				if st.UpdatesAbove[d] > 0 {
+					x.r.Count("interleavings:table-size-update-above-4096-in-"+name+"-direction", 1)
+				}
+				if st.UpdateSplit[d] > 0 {
+					x.r.Count("interleavings:table-size-update-continued-in-continuation-frame", 1)
+				}
+			}
+		}
 		oints := c15OrderInts(order)
 		for s := 0; s < 2; s++ {
 			server := s == 1
 			mk := func(part c15Part, fin, timeoutAt int) *c15AttrCase {
-				return &c15AttrCase{Kind: "attr", Server: server, A: p.A, B: p.B, Order: oints, Part: part, Fin: fin, TimeoutAt: timeoutAt}
+				return &c15AttrCase{Kind: "attr", Server: server, A: p.A, B: p.B, Tab: p.Tab, Order: oints, Part: part, Fin: fin, TimeoutAt: timeoutAt}
+			}
+			var wholeKeys map[string]bool
+			// run evaluates a case that exists and judges it
+			run := func(cs *c15AttrCase, ref map[string]bool) bool {
+				res, vs, ok := c15RunAttrUnits(cs, bt, units, st)
+				if ok {
+					x.judge(cs, bt, &res, vs, ref, baseKeys[s])
+				}
+				return ok
 			}
 			// phase 1: whole / per frame / per byte
 			cs := mk(c15Part{Mode: "whole"}, c15FinClose, -1)
-			res, vs := c15RunAttrUnits(cs, bt, units)
-			wholeKeys := c15Keys(vs)
+			res, vs, _ := c15RunAttrUnits(cs, bt, units, st)
+			wholeKeys = c15Keys(vs)
 			x.judge(cs, bt, &res, vs, nil, baseKeys[s])
 			if x.k%997 == 1 && s == 0 {
 				x.r.Sample(map[string]any{"case": cs, "frames": c15UnitNames(bt, order), "traces": len(res.Traces), "outcome": c15OutcomeClass(&res)})
 			}
 			for _, mode := range []string{"frame", "byte"} {
-				cs := mk(c15Part{Mode: mode}, c15FinClose, -1)
-				res, vs := c15RunAttrUnits(cs, bt, units)
-				x.judge(cs, bt, &res, vs, wholeKeys, baseKeys[s])
+				run(mk(c15Part{Mode: mode}, c15FinClose, -1), wholeKeys)
+			}
+			// phase 1b: the script's last call is a Read of this side and returns its bytes together with
+			// an error (the whole last run / the last frame with io.EOF, the last byte with a reset): every
+			// interleaving that is the first to end with its particular run of frames in the read direction
+			if endRep[s][oi] || canonical[oi] {
+				for _, mf := range []struct {
+					mode string
+					fin  int
+				}{{"whole", c15FinEOFData}, {"frame", c15FinEOFData}, {"byte", c15FinErrData}} {
+					if run(mk(c15Part{Mode: mf.mode}, mf.fin, -1), wholeKeys) {
+						x.r.Count("cases:last-bytes-together-with-read-error", 1)
+					}
+				}
 			}
 			// phase 2: every single cut (canonical interleavings; all interleavings for the mini pairs in the thorough tier)
 			if canonical[oi] || (thorough && mini) {
+				rd := c15DirResp
+				if server {
+					rd = c15DirReq
+				}
 				for dir := 0; dir < 2; dir++ {
 					for _, pos := range c15CutPositions(units, dir) {
-						cs := mk(c15Part{Mode: "cut", Dir: dir, Pos: pos}, c15FinClose, -1)
-						res, vs := c15RunAttrUnits(cs, bt, units)
-						x.judge(cs, bt, &res, vs, wholeKeys, baseKeys[s])
+						part := c15Part{Mode: "cut", Dir: dir, Pos: pos}
+						run(mk(part, c15FinClose, -1), wholeKeys)
+						// the Read that ends at the cut (anywhere inside a frame) returns its bytes together with
+						// a timeout error; the rest follows in the next Read
+						if dir == rd && oi == 0 {
+							cs := mk(part, c15FinClose, c15CutStep(c15Steps(units, part), dir, pos))
+							cs.TimeoutData = true
+							if cs.TimeoutAt >= 0 && run(cs, wholeKeys) {
+								x.r.Count("cases:bytes-together-with-read-timeout", 1)
+							}
+						}
 					}
 				}
 				x.r.Count("interleavings-with-every-cut", 1)
 			}
 			// phase 3: other ways for the connection to end; a read timeout at every call boundary
 			if canonical[oi] {
-				for _, fin := range []int{c15FinEOF, c15FinWait, c15FinCloseErr} {
-					cs := mk(c15Part{Mode: "whole"}, fin, -1)
-					res, vs := c15RunAttrUnits(cs, bt, units)
-					x.judge(cs, bt, &res, vs, wholeKeys, baseKeys[s])
+				for _, fin := range []int{c15FinWait, c15FinCloseErr} {
+					run(mk(c15Part{Mode: "whole"}, fin, -1), wholeKeys)
 				}
-				nsteps := len(c15Steps(units, c15Part{Mode: "frame"}))
+				// ending modes of the read side: {error in its own call | with the last chunk} x {EOF | reset}
+				// under every partition (three of the combinations ran in phase 1b) ...
+				for _, mode := range []string{"whole", "frame", "byte"} {
+					for _, fin := range []int{c15FinEOF, c15FinErr, c15FinEOFData, c15FinErrData} {
+						if (fin == c15FinEOFData && mode != "byte") || (fin == c15FinErrData && mode == "byte") {
+							continue
+						}
+						if run(mk(c15Part{Mode: mode}, fin, -1), wholeKeys) && (fin == c15FinEOFData || fin == c15FinErrData) {
+							x.r.Count("cases:last-bytes-together-with-read-error", 1)
+						}
+					}
+				}
+				// ... and with the last run cut at every interior offset (the last chunk is any proper suffix
+				// of it; io.EOF and reset alternate)
+				rd := c15DirResp
+				if server {
+					rd = c15DirReq
+				}
+				if units[len(units)-1].Dir == rd {
+					lastRun := 0
+					for i := len(units) - 1; i >= 0 && units[i].Dir == rd; i-- {
+						lastRun += len(units[i].Bytes)
+					}
+					total := c15DirLen(units, rd)
+					for pos := total - lastRun + 1; pos < total; pos++ {
+						fin := c15FinEOFData
+						if pos%2 == 1 {
+							fin = c15FinErrData
+						}
+						if run(mk(c15Part{Mode: "cut", Dir: rd, Pos: pos}, fin, -1), wholeKeys) {
+							x.r.Count("cases:last-bytes-together-with-read-error", 1)
+						}
+					}
+				}
+				// a read timeout at every call boundary, and every Read returning its bytes together with a
+				// timeout error (the connection goes on: nothing may be lost)
+				nsteps := len(c15CachedSteps(units, c15Part{Mode: "frame"}))
 				for at := 0; at <= nsteps; at++ {
-					cs := mk(c15Part{Mode: "frame"}, c15FinClose, at)
-					res, vs := c15RunAttrUnits(cs, bt, units)
-					x.judge(cs, bt, &res, vs, wholeKeys, baseKeys[s])
+					run(mk(c15Part{Mode: "frame"}, c15FinClose, at), wholeKeys)
+				}
+				for _, mode := range []string{"whole", "frame"} {
+					nsteps := len(c15CachedSteps(units, c15Part{Mode: mode}))
+					for at := 0; at < nsteps; at++ {
+						cs := mk(c15Part{Mode: mode}, c15FinClose, at)
+						cs.TimeoutData = true
+						if run(cs, wholeKeys) {
+							x.r.Count("cases:bytes-together-with-read-timeout", 1)
+						}
+					}
 				}
 			}
 		}
@@ -680,7 +981,7 @@ func c15CountSpecial(r *rep.Report, bt *c15Built, orders [][]byte) {
 }
 
 func c15UnitNames(bt *c15Built, order []byte) []string {
-	items := c15Merge(bt.a, bt.b, order)
+	items := c15ApplyTab(c15Merge(bt.a, bt.b, order), bt.tab)
 	out := make([]string, len(items))
 	for i, it := range items {
 		c := "conn"
@@ -695,13 +996,13 @@ func c15UnitNames(bt *c15Built, order []byte) []string {
 func TestVerifC15Attr(t *testing.T) {
 	r := rep.New("c15-attr")
 	defer r.Write()
-	r.Rule = "case = (ordered pair of call shapes on streams 1 and 3, one well-formed interleaving of their frame sequences with HPACK encoded in emission order, side client|server, partition of the byte streams into Read/Write calls: whole runs | per frame | per byte | one cut at every interior offset, way the connection ends, optional read timeout at a call boundary); cases are distinct by construction; non-trivial = at least one of the two calls carries a test name, so at least one complete trace is demanded"
+	r.Rule = "case = (ordered pair of call shapes on streams 1 and 3, one well-formed interleaving of their frame sequences with HPACK encoded in emission order, side client|server, HPACK dynamic-table-size history of each direction: none | a schedule of SETTINGS_HEADER_TABLE_SIZE advertisements and size updates at the start of the k-th header block, partition of the byte streams into Read/Write calls: whole runs | per frame | per byte | one cut at every interior offset, way the connection ends: Close | Close fails | virtual time passes | read error {io.EOF, reset} x {in a Read call of its own, together with the last chunk}, optional read timeout: (0, timeout) at a call boundary | (n>0, timeout) on a Read that carries bytes); cases are distinct by construction; non-trivial = at least one of the two calls carries a test name, so at least one complete trace is demanded"
 	if in := rep.ReplayInput(); in != nil {
 		c15ReplayAttr(t, r, in)
 		return
 	}
 	thorough := rep.Thorough()
-	defer debug.SetGCPercent(debug.SetGCPercent(400))
+	defer debug.SetGCPercent(debug.SetGCPercent(1000))
 	pairs := c15Pairs(thorough)
 	mini := map[string]bool{}
 	for _, a := range c15MiniShapes() {
@@ -737,12 +1038,12 @@ func TestVerifC15Attr(t *testing.T) {
 			break
 		}
 		synctest.Test(t, func(t *testing.T) {
-			x.pair(pi, p, thorough, mini[p.A.String()+"|"+p.B.String()])
+			x.pair(pi, p, thorough, p.Tab.none() && mini[p.A.String()+"|"+p.B.String()])
 		})
 	}
-	r.Extra["bound"] = fmt.Sprintf("two calls per connection; call shapes: %d quick / %d thorough (0-2 DATA frames per direction, request / response / trailer header blocks of 1-2 fragments, and %d quick / %d thorough chain shapes with blocks of 3-4 fragments (HEADERS + 2..3 CONTINUATION) paired with %d partner shapes and each other, END_STREAM on last frame or on an empty DATA, trailers or trailers-only, RST_STREAM by either side early/mid, REFUSED_STREAM+retry, GOAWAY(last-stream-id 1), no test name; %d quick / %d thorough late shapes (response HEADERS / DATA / trailers arriving after the client's RST_STREAM or after the GOAWAY that dropped the stream) with %d / %d partners; %d quick / %d thorough shapes with one message in 3-4 DATA frames); all interleavings; every single cut only for the first/middle/last interleaving of a pair (thorough: all interleavings for %d mini shapes squared)", len(c15QuickShapes()), len(c15ThoroughShapes()), len(c15ChainShapes(false)), len(c15ChainShapes(true)), len(c15ChainPartners()),
+	r.Extra["bound"] = fmt.Sprintf("two calls per connection; call shapes: %d quick / %d thorough (0-2 DATA frames per direction, request / response / trailer header blocks of 1-2 fragments, and %d quick / %d thorough chain shapes with blocks of 3-4 fragments (HEADERS + 2..3 CONTINUATION) paired with %d partner shapes and each other, END_STREAM on last frame or on an empty DATA, trailers or trailers-only, RST_STREAM by either side early/mid, REFUSED_STREAM+retry, GOAWAY(last-stream-id 1), no test name; %d quick / %d thorough late shapes (response HEADERS / DATA / trailers arriving after the client's RST_STREAM or after the GOAWAY that dropped the stream) with %d / %d partners; %d quick / %d thorough shapes with one message in 3-4 DATA frames); all interleavings; every single cut only for the first/middle/last interleaving of a pair (thorough: all interleavings for %d mini shapes squared); %d quick / %d thorough HPACK table-size schedules per direction (SETTINGS_HEADER_TABLE_SIZE 0 / 128 / 4097 / 64 KiB / 2^32-1 in the prologue or mid-connection; size updates to 0, 128, 4095-4097, 16 KiB, 64 KiB, 2^32-1 at the start of header block 0, 1 or 2, one or two instructions per block) in %d / %d shape pairs; endings with the last chunk (whole last run, last frame, last byte, every proper suffix of the last run) returned together with io.EOF / a reset: all partitions for the first/middle/last interleaving, three combinations for every interleaving that is the first to end with its run of frames; (n>0, timeout) at every Read of the whole and frame partitions for the first/middle/last interleaving and at every cut of the read direction for the first interleaving", len(c15QuickShapes()), len(c15ThoroughShapes()), len(c15ChainShapes(false)), len(c15ChainShapes(true)), len(c15ChainPartners()),
 		len(c15LateShapes(false)), len(c15LateShapes(true)), len(c15LatePartners(false)), len(c15LatePartners(true)), c15NPieceShapes(false), c15NPieceShapes(true),
-		len(c15MiniShapes()))
+		len(c15MiniShapes()), len(c15TableScheds(false)), len(c15TableScheds(true)), len(c15TabPairs(false)), len(c15TabPairs(true)))
 }
 
 func c15NPieceShapes(thorough bool) int {
@@ -764,8 +1065,8 @@ func c15ReplayAttr(t *testing.T, r *rep.Report, in []byte) {
 	}
 	synctest.Test(t, func(t *testing.T) {
 		res, vs, units := c15RunAttrCase(&cs)
-		bt := c15Build(c15Pair{cs.A, cs.B})
-		fmt.Printf("replay %s: side=%s\n frames: %v\n", rec.Key, c15Side(cs.Server), c15UnitNames(bt, c15OrderBytes(cs.Order)))
+		bt := c15Build(c15Pair{A: cs.A, B: cs.B, Tab: cs.Tab})
+		fmt.Printf("replay %s: side=%s table-size-history=%s ending=%s timeout_at=%d timeout_with_data=%v\n frames: %v\n", rec.Key, c15Side(cs.Server), cs.Tab, c15FinName(cs.Fin), cs.TimeoutAt, cs.TimeoutData, c15UnitNames(bt, c15OrderBytes(cs.Order)))
 		for i, st := range c15Steps(units, cs.Part) {
 			if i < 40 {
 				fmt.Printf("  call %d dir=%d %x\n", i, st.Dir, st.Data)
@@ -784,6 +1085,23 @@ func c15ReplayAttr(t *testing.T, r *rep.Report, in []byte) {
 			r.Violate(v.Key, v.Detail, cs)
 		}
 		sort.Strings(keys)
+		// the dependence keys are re-derived from their reference case
+		if rec.Key == "trace-depends-on-error-with-data" || rec.Key == "trace-depends-on-table-size-update" {
+			ref := cs
+			if rec.Key == "trace-depends-on-error-with-data" {
+				ref = cs.separateError()
+			} else {
+				ref.Tab = c15Tab{}
+			}
+			clean := c15RefClean(&ref)
+			fmt.Printf(" reference case (ending=%s timeout_at=%d timeout_with_data=%v table-size-history=%s): clean=%v\n", c15FinName(ref.Fin), ref.TimeoutAt, ref.TimeoutData, ref.Tab, clean)
+			if clean {
+				for _, v := range vs {
+					fmt.Printf(" reference case is clean where this one reports %s\n", v.Key)
+					r.Violate(rec.Key, v.Key+": "+v.Detail, cs)
+				}
+			}
+		}
 		// the dependence keys are re-derived from the whole-run partition / first interleaving
 		if rec.Key == "trace-depends-on-partition" || rec.Key == "trace-depends-on-interleaving" {
 			ref := cs
